@@ -76,6 +76,7 @@ func main() {
 	st.Rule = "one case = (object kind, dirtying call history through the public API, return to pool + re-acquire, later calls of the next user); kinds {args,msg,xfer,bb,sock,ctx(live)}; dirty histories of 1..25 calls over every setter (all header fields, add/set/del/parse/copy metadata with short, long and quoted keys, filters, bodies, statuses, sizes, swap entries, ids, partial reads); distinct by the full case text; non-trivial = at least 2 dirtying calls and at least one later observation"
 	w := NewCaseWriter(cfg)
 	distinct := DistinctSet{}
+	sampled := map[string]bool{}
 	live := newLive(cfg, st)
 	defer live.close()
 	kinds := []string{"args", "args", "msg", "msg", "msg", "xfer", "bb", "sock", "sock", "ctx", "ctx"}
@@ -112,7 +113,8 @@ func main() {
 		if len(h.dirty) >= 2 && len(h.obs) >= 1 {
 			distinct.Add(in)
 		}
-		if len(st.Samples) < 6 && i%len(kinds) != 1 && i%len(kinds) != 3 && i%len(kinds) != 4 && i%len(kinds) != 8 && i%len(kinds) != 10 {
+		if !sampled[h.kind] {
+			sampled[h.kind] = true
 			st.Samples = append(st.Samples, fmt.Sprintf("%s via=%s dirty=%s later=%s", h.kind, h.via, clip(strings.Join(h.dirty, " ")), clip(strings.Join(h.later, " "))))
 		}
 	}
